@@ -135,6 +135,93 @@ Proof. intros Hi. unfold ibSIR_dY, ibSIR_dY_nd. rewrite (ibSIR_dX_A V i Hi). rew
 End NodeFormIB.
 
 (* ====================================================================== *)
+(* node forms of the pair-based right-hand sides                           *)
+(* ====================================================================== *)
+Section NodeFormPB.
+Variables (G : graph) (nodelist : list node) (idx : node -> nat) (tr : node -> node -> Q) (rc : node -> Q).
+Notation n := (nN nodelist).
+Notation nd := (node_at nodelist).
+Hypothesis Hidx : forall i, (i < n)%nat -> idx (nd i) = i.
+
+Definition tin_nd (xinv : node -> Q) (xy xx : node -> node -> Q) (u v : node) : Q :=
+  sumQ (map (fun w => tr v w * xx u v * xy v w * xinv v) (others u (gadj G v))).
+Definition tout_nd (xinv : node -> Q) (xy a : node -> node -> Q) (u v : node) : Q :=
+  sumQ (map (fun w => tr u w * xy u w * a u v * xinv u) (others v (gadj G u))).
+Definition pb_dX_nd (xy : node -> node -> Q) (u : node) : Q :=
+  sumQ (map (fun v => - tr u v * xy u v) (gadj G u)).
+Definition pb_dY_nd (y : node -> Q) (xy : node -> node -> Q) (u : node) : Q :=
+  - rc u * y u + sumQ (map (fun v => tr u v * xy u v) (gadj G u)).
+Definition pbSIR_dXY_nd (x : node -> Q) (xy xx : node -> node -> Q) (u v : node) : Q :=
+  if mem v (gadj G u) then
+    - (tr u v + rc v) * xy u v + tin_nd (fun k => inv0 (x k)) xy xx u v - tout_nd (fun k => inv0 (x k)) xy xy u v
+  else 0.
+Definition pbSIR_dXX_nd (x : node -> Q) (xy xx : node -> node -> Q) (u v : node) : Q :=
+  if mem v (gadj G u) then
+    - tin_nd (fun k => inv0 (x k)) xy xx u v - tout_nd (fun k => inv0 (x k)) xy xx u v
+  else 0.
+Definition pbSIS_dXY_nd (y : node -> Q) (xy xx : node -> node -> Q) (u v : node) : Q :=
+  if mem v (gadj G u) then
+    - (tr u v + rc v) * xy u v + rc u * (1 - xy u v - xx u v - xy v u)
+    + tin_nd (fun k => inv0 (1 - y k)) xy xx u v - tout_nd (fun k => inv0 (1 - y k)) xy xy u v
+  else 0.
+Definition pbSIS_dXX_nd (y : node -> Q) (xy xx : node -> node -> Q) (u v : node) : Q :=
+  if mem v (gadj G u) then
+    rc u * xy v u + rc v * xy u v
+    - tin_nd (fun k => inv0 (1 - y k)) xy xx u v - tout_nd (fun k => inv0 (1 - y k)) xy xx u v
+  else 0.
+
+Lemma tin_A Xinv XY XX i j : (i < n)%nat -> (j < n)%nat ->
+  triples_in G nodelist idx tr Xinv XY XX i j =
+  tin_nd (fun u => Xinv (idx u)) (fun a b => XY (idx a) (idx b)) (fun a b => XX (idx a) (idx b)) (nd i) (nd j).
+Proof. intros Hi Hj. unfold triples_in, tin_nd. cbv zeta. rewrite (Hidx i Hi), (Hidx j Hj). reflexivity. Qed.
+Lemma tout_A Xinv XY A i j : (i < n)%nat -> (j < n)%nat ->
+  triples_out G nodelist idx tr Xinv XY A i j =
+  tout_nd (fun u => Xinv (idx u)) (fun a b => XY (idx a) (idx b)) (fun a b => A (idx a) (idx b)) (nd i) (nd j).
+Proof. intros Hi Hj. unfold triples_out, tout_nd. cbv zeta. rewrite (Hidx i Hi), (Hidx j Hj). reflexivity. Qed.
+
+(* SIR pair based: accessors of V = X ++ Y ++ XY ++ XX through the node names *)
+Definition rx (V : vec) (u : node) : Q := prX V (idx u).
+Definition ry (V : vec) (u : node) : Q := prY nodelist V (idx u).
+Definition rxy (V : vec) (a b : node) : Q := prXY nodelist V (idx a) (idx b).
+Definition rxx (V : vec) (a b : node) : Q := prXX nodelist V (idx a) (idx b).
+Lemma pbSIR_dX_A V i : (i < n)%nat -> pbSIR_dX G nodelist idx tr V i = pb_dX_nd (rxy V) (nd i).
+Proof. intros Hi. unfold pbSIR_dX, pb_dX_nd, rxy. cbv zeta. rewrite (Hidx i Hi). reflexivity. Qed.
+Lemma pbSIR_dY_A V i : (i < n)%nat -> pbSIR_dY G nodelist idx tr rc V i = pb_dY_nd (ry V) (rxy V) (nd i).
+Proof. intros Hi. unfold pbSIR_dY, pb_dY_nd, rxy, ry. cbv zeta. rewrite (Hidx i Hi). reflexivity. Qed.
+Lemma pbSIR_dXY_A V i j : (i < n)%nat -> (j < n)%nat ->
+  pbSIR_dXY G nodelist idx tr rc V i j = pbSIR_dXY_nd (rx V) (rxy V) (rxx V) (nd i) (nd j).
+Proof.
+  intros Hi Hj. unfold pbSIR_dXY, pbSIR_dXY_nd, is_edge. cbv zeta. rewrite (tin_A _ _ _ i j Hi Hj), (tout_A _ _ _ i j Hi Hj).
+  unfold rx, rxy, rxx. rewrite (Hidx i Hi), (Hidx j Hj). reflexivity.
+Qed.
+Lemma pbSIR_dXX_A V i j : (i < n)%nat -> (j < n)%nat ->
+  pbSIR_dXX G nodelist idx tr V i j = pbSIR_dXX_nd (rx V) (rxy V) (rxx V) (nd i) (nd j).
+Proof.
+  intros Hi Hj. unfold pbSIR_dXX, pbSIR_dXX_nd, is_edge. cbv zeta. rewrite (tin_A _ _ _ i j Hi Hj), (tout_A _ _ _ i j Hi Hj).
+  reflexivity.
+Qed.
+
+(* SIS pair based: V = Y ++ XY ++ XX *)
+Definition sy (V : vec) (u : node) : Q := psY V (idx u).
+Definition sxy (V : vec) (a b : node) : Q := psXY nodelist V (idx a) (idx b).
+Definition sxx (V : vec) (a b : node) : Q := psXX nodelist V (idx a) (idx b).
+Lemma pbSIS_dY_A V i : (i < n)%nat -> pbSIS_dY G nodelist idx tr rc V i = pb_dY_nd (sy V) (sxy V) (nd i).
+Proof. intros Hi. unfold pbSIS_dY, pb_dY_nd, sxy, sy. cbv zeta. rewrite (Hidx i Hi). reflexivity. Qed.
+Lemma pbSIS_dXY_A V i j : (i < n)%nat -> (j < n)%nat ->
+  pbSIS_dXY G nodelist idx tr rc V i j = pbSIS_dXY_nd (sy V) (sxy V) (sxx V) (nd i) (nd j).
+Proof.
+  intros Hi Hj. unfold pbSIS_dXY, pbSIS_dXY_nd, is_edge, psYY. cbv zeta. rewrite (tin_A _ _ _ i j Hi Hj), (tout_A _ _ _ i j Hi Hj).
+  unfold sy, sxy, sxx, psX. rewrite (Hidx i Hi), (Hidx j Hj). reflexivity.
+Qed.
+Lemma pbSIS_dXX_A V i j : (i < n)%nat -> (j < n)%nat ->
+  pbSIS_dXX G nodelist idx tr rc V i j = pbSIS_dXX_nd (sy V) (sxy V) (sxx V) (nd i) (nd j).
+Proof.
+  intros Hi Hj. unfold pbSIS_dXX, pbSIS_dXX_nd, is_edge. cbv zeta. rewrite (tin_A _ _ _ i j Hi Hj), (tout_A _ _ _ i j Hi Hj).
+  unfold sy, sxy, sxx, psX. rewrite (Hidx i Hi), (Hidx j Hj). reflexivity.
+Qed.
+End NodeFormPB.
+
+(* ====================================================================== *)
 (* the relabelling hypotheses                                              *)
 (* ====================================================================== *)
 Section Relabel.
@@ -407,5 +494,174 @@ Proof.
   intros H. unfold perm_ibSIR in H. split; apply rel1_of_nth; intros i Hi; unfold vnth; rewrite (veq_nth_all _ _ H).
   - cbn [Nat.add]. rewrite nth_app_lt by (rewrite blk1_length; exact Hi). reflexivity.
   - rewrite nth_app_at by apply blk1_length. rewrite len2. reflexivity.
+Qed.
+
+(* ====================================================================== *)
+(* pair based                                                              *)
+(* ====================================================================== *)
+Section PBrel.
+Variables (xinv xinv' : node -> Q) (xy xy' xx xx' : node -> node -> Q).
+Hypothesis Hxi : forall v, In v nodelist -> xinv' (phi v) == xinv v.
+Hypothesis Hxy : forall a b, In a nodelist -> In b nodelist -> xy' (phi a) (phi b) == xy a b.
+Hypothesis Hxx : forall a b, In a nodelist -> In b nodelist -> xx' (phi a) (phi b) == xx a b.
+Lemma tin_B u v : In u nodelist -> In v nodelist ->
+  tin_nd G' tr' xinv' xy' xx' (phi u) (phi v) == tin_nd G tr xinv xy xx u v.
+Proof.
+  intros Hu Hv. unfold tin_nd.
+  apply (sum_relabel phi _ (fun w => tr' (phi v) w * xx' (phi u) (phi v) * xy' (phi v) w * xinv' (phi v)) _ _ (others_adj u v Hu Hv)).
+  intros w Hw. apply others_In in Hw. pose proof (nbr_in v w Hv Hw) as Hwn.
+  rewrite (rl_tr R v w Hv Hw), (Hxx u v Hu Hv), (Hxy v w Hv Hwn), (Hxi v Hv). reflexivity.
+Qed.
+Lemma tout_B (a a' : node -> node -> Q) u v :
+  (forall p q, In p nodelist -> In q nodelist -> a' (phi p) (phi q) == a p q) -> In u nodelist -> In v nodelist ->
+  tout_nd G' tr' xinv' xy' a' (phi u) (phi v) == tout_nd G tr xinv xy a u v.
+Proof.
+  intros Ha Hu Hv. unfold tout_nd.
+  apply (sum_relabel phi _ (fun w => tr' (phi u) w * xy' (phi u) w * a' (phi u) (phi v) * xinv' (phi u)) _ _ (others_adj v u Hv Hu)).
+  intros w Hw. apply others_In in Hw. pose proof (nbr_in u w Hu Hw) as Hwn.
+  rewrite (rl_tr R u w Hu Hw), (Hxy u w Hu Hwn), (Ha u v Hu Hv), (Hxi u Hu). reflexivity.
+Qed.
+Lemma pb_dX_B u : In u nodelist -> pb_dX_nd G' tr' xy' (phi u) == pb_dX_nd G tr xy u.
+Proof.
+  intros Hu. unfold pb_dX_nd.
+  apply (sum_relabel phi _ (fun v => - tr' (phi u) v * xy' (phi u) v) _ _ (rl_adj R u Hu)).
+  intros v Hv. rewrite (rl_tr R u v Hu Hv), (Hxy u v Hu (nbr_in u v Hu Hv)). reflexivity.
+Qed.
+Lemma pb_dY_B (y y' : node -> Q) u : (forall v, In v nodelist -> y' (phi v) == y v) -> In u nodelist ->
+  pb_dY_nd G' tr' rc' y' xy' (phi u) == pb_dY_nd G tr rc y xy u.
+Proof.
+  intros Hy Hu. unfold pb_dY_nd.
+  rewrite (sum_relabel phi (fun v => tr u v * xy u v) (fun v => tr' (phi u) v * xy' (phi u) v) _ _ (rl_adj R u Hu)).
+  - rewrite (rl_rc R u Hu), (Hy u Hu). reflexivity.
+  - intros v Hv. cbv beta. rewrite (rl_tr R u v Hu Hv), (Hxy u v Hu (nbr_in u v Hu Hv)). reflexivity.
+Qed.
+End PBrel.
+
+Lemma inv0_rel (x x' : node -> Q) : (forall v, In v nodelist -> x' (phi v) == x v) ->
+  forall v, In v nodelist -> inv0 (x' (phi v)) == inv0 (x v).
+Proof. intros H v Hv. apply inv0_proper, H, Hv. Qed.
+Lemma inv0_rel1 (y y' : node -> Q) : (forall v, In v nodelist -> y' (phi v) == y v) ->
+  forall v, In v nodelist -> inv0 (1 - y' (phi v)) == inv0 (1 - y v).
+Proof. intros H v Hv. apply inv0_proper. rewrite (H v Hv). reflexivity. Qed.
+
+Section PBrel2.
+Variables (x x' : node -> Q) (xy xy' xx xx' : node -> node -> Q).
+Hypothesis Hx : forall v, In v nodelist -> x' (phi v) == x v.
+Hypothesis Hxy : forall a b, In a nodelist -> In b nodelist -> xy' (phi a) (phi b) == xy a b.
+Hypothesis Hxx : forall a b, In a nodelist -> In b nodelist -> xx' (phi a) (phi b) == xx a b.
+Lemma pbSIR_dXY_B u v : In u nodelist -> In v nodelist ->
+  pbSIR_dXY_nd G' tr' rc' x' xy' xx' (phi u) (phi v) == pbSIR_dXY_nd G tr rc x xy xx u v.
+Proof.
+  intros Hu Hv. unfold pbSIR_dXY_nd. rewrite (mem_adj u v Hu Hv). destruct (mem v (gadj G u)) eqn:E; [|reflexivity].
+  apply mem_In in E.
+  rewrite (tin_B _ _ xy xy' xx xx' (inv0_rel x x' Hx) Hxy Hxx u v Hu Hv).
+  rewrite (tout_B _ _ xy xy' (inv0_rel x x' Hx) Hxy xy xy' u v Hxy Hu Hv).
+  rewrite (rl_tr R u v Hu E), (rl_rc R v Hv), (Hxy u v Hu Hv). reflexivity.
+Qed.
+Lemma pbSIR_dXX_B u v : In u nodelist -> In v nodelist ->
+  pbSIR_dXX_nd G' tr' x' xy' xx' (phi u) (phi v) == pbSIR_dXX_nd G tr x xy xx u v.
+Proof.
+  intros Hu Hv. unfold pbSIR_dXX_nd. rewrite (mem_adj u v Hu Hv). destruct (mem v (gadj G u)) eqn:E; [|reflexivity].
+  rewrite (tin_B _ _ xy xy' xx xx' (inv0_rel x x' Hx) Hxy Hxx u v Hu Hv).
+  rewrite (tout_B _ _ xy xy' (inv0_rel x x' Hx) Hxy xx xx' u v Hxx Hu Hv). reflexivity.
+Qed.
+(* SIS: x plays the role of y, X = 1 - Y *)
+Lemma pbSIS_dXY_B u v : In u nodelist -> In v nodelist ->
+  pbSIS_dXY_nd G' tr' rc' x' xy' xx' (phi u) (phi v) == pbSIS_dXY_nd G tr rc x xy xx u v.
+Proof.
+  intros Hu Hv. unfold pbSIS_dXY_nd. rewrite (mem_adj u v Hu Hv). destruct (mem v (gadj G u)) eqn:E; [|reflexivity].
+  apply mem_In in E.
+  rewrite (tin_B _ _ xy xy' xx xx' (inv0_rel1 x x' Hx) Hxy Hxx u v Hu Hv).
+  rewrite (tout_B _ _ xy xy' (inv0_rel1 x x' Hx) Hxy xy xy' u v Hxy Hu Hv).
+  rewrite (rl_tr R u v Hu E), (rl_rc R v Hv), (rl_rc R u Hu), (Hxy u v Hu Hv), (Hxy v u Hv Hu), (Hxx u v Hu Hv). reflexivity.
+Qed.
+Lemma pbSIS_dXX_B u v : In u nodelist -> In v nodelist ->
+  pbSIS_dXX_nd G' tr' rc' x' xy' xx' (phi u) (phi v) == pbSIS_dXX_nd G tr rc x xy xx u v.
+Proof.
+  intros Hu Hv. unfold pbSIS_dXX_nd. rewrite (mem_adj u v Hu Hv). destruct (mem v (gadj G u)) eqn:E; [|reflexivity].
+  rewrite (tin_B _ _ xy xy' xx xx' (inv0_rel1 x x' Hx) Hxy Hxx u v Hu Hv).
+  rewrite (tout_B _ _ xy xy' (inv0_rel1 x x' Hx) Hxy xx xx' u v Hxx Hu Hv).
+  rewrite (rl_rc R v Hv), (rl_rc R u Hu), (Hxy u v Hu Hv), (Hxy v u Hv Hu). reflexivity.
+Qed.
+End PBrel2.
+
+(* accessors of problem 2 through the node names *)
+Lemma acc_rx V V' : rel1 0 V V' -> forall v, In v nodelist -> rx idx' V' (phi v) == rx idx V v.
+Proof. intros H v Hv. unfold rx, prX. exact (rel1_node 0 V V' v H Hv). Qed.
+Lemma acc_ry V V' : rel1 n V V' -> forall v, In v nodelist -> ry nl' idx' V' (phi v) == ry nodelist idx V v.
+Proof. intros H v Hv. unfold ry, prY. rewrite len'. exact (rel1_node n V V' v H Hv). Qed.
+Lemma acc_rxy V V' : rel2 (2 * n) V V' -> forall a b, In a nodelist -> In b nodelist ->
+  rxy nl' idx' V' (phi a) (phi b) == rxy nodelist idx V a b.
+Proof. intros H a b Ha Hb. unfold rxy, prXY. rewrite len'. exact (rel2_node (2 * n) V V' a b H Ha Hb). Qed.
+Lemma acc_rxx V V' : rel2 (2 * n + n * n) V V' -> forall a b, In a nodelist -> In b nodelist ->
+  rxx nl' idx' V' (phi a) (phi b) == rxx nodelist idx V a b.
+Proof. intros H a b Ha Hb. unfold rxx, prXX. rewrite len'. exact (rel2_node (2 * n + n * n) V V' a b H Ha Hb). Qed.
+Lemma acc_sy V V' : rel1 0 V V' -> forall v, In v nodelist -> sy idx' V' (phi v) == sy idx V v.
+Proof. intros H v Hv. unfold sy, psY. exact (rel1_node 0 V V' v H Hv). Qed.
+Lemma acc_sxy V V' : rel2 n V V' -> forall a b, In a nodelist -> In b nodelist ->
+  sxy nl' idx' V' (phi a) (phi b) == sxy nodelist idx V a b.
+Proof. intros H a b Ha Hb. unfold sxy, psXY. rewrite len'. exact (rel2_node n V V' a b H Ha Hb). Qed.
+Lemma acc_sxx V V' : rel2 (n + n * n) V V' -> forall a b, In a nodelist -> In b nodelist ->
+  sxx nl' idx' V' (phi a) (phi b) == sxx nodelist idx V a b.
+Proof. intros H a b Ha Hb. unfold sxx, psXX. rewrite len'. exact (rel2_node (n + n * n) V V' a b H Ha Hb). Qed.
+
+Ltac at_pos i Hi Hu Hk Ek := pose proof (nd2_in i Hi) as Hu; destruct (in_nodelist _ Hu) as [Hk Ek].
+
+Theorem pbSIR_equivariant V V' t :
+  rel1 0 V V' -> rel1 n V V' -> rel2 (2 * n) V V' -> rel2 (2 * n + n * n) V V' ->
+  veq (dSIR_pair_based G' nl' idx' tr' rc' V' t) (perm_pbSIR idx nl2 (dSIR_pair_based G nodelist idx tr rc V t)).
+Proof.
+  intros H0 H1 H2 H3. unfold dSIR_pair_based, perm_pbSIR. rewrite !len2.
+  set (tX := tab n (pbSIR_dX G nodelist idx tr V)). set (tY := tab n (pbSIR_dY G nodelist idx tr rc V)).
+  set (tXY := tab2 n n (pbSIR_dXY G nodelist idx tr rc V)). set (tXX := tab2 n n (pbSIR_dXX G nodelist idx tr V)).
+  apply veq_app; [|apply veq_app; [|apply veq_app]].
+  - apply (veq_tab_blk1_at _ _ (pbSIR_dX G nodelist idx tr V) [] (tY ++ tXY ++ tXX)); [apply len'|reflexivity|reflexivity|].
+    intros i Hi. at_pos i Hi Hu Hk Ek.
+    rewrite (pbSIR_dX_A G' nl' idx' tr' Hidx'_all V' i) by (rewrite len'; exact Hi).
+    rewrite (pbSIR_dX_A G nodelist idx tr (rl_idx R) V _ Hk). rewrite Ek, (nd'_eq i Hi).
+    apply pb_dX_B; [apply acc_rxy, H2|exact Hu].
+  - apply (veq_tab_blk1_at _ _ (pbSIR_dY G nodelist idx tr rc V) tX (tXY ++ tXX)); [apply len'|reflexivity|apply tab_length|].
+    intros i Hi. at_pos i Hi Hu Hk Ek.
+    rewrite (pbSIR_dY_A G' nl' idx' tr' rc' Hidx'_all V' i) by (rewrite len'; exact Hi).
+    rewrite (pbSIR_dY_A G nodelist idx tr rc (rl_idx R) V _ Hk). rewrite Ek, (nd'_eq i Hi).
+    apply pb_dY_B; [apply acc_rxy, H2|apply acc_ry, H1|exact Hu].
+  - apply (veq_tab_blk2_at _ _ (pbSIR_dXY G nodelist idx tr rc V) (tX ++ tY) tXX);
+      [apply len'|rewrite <- app_assoc; reflexivity|unfold tX, tY; rewrite app_length, !tab_length; lia|].
+    intros i j Hi Hj. at_pos i Hi Hu Hk Ek. at_pos j Hj Hv Hl El.
+    rewrite (pbSIR_dXY_A G' nl' idx' tr' rc' Hidx'_all V' i j) by (rewrite len'; assumption).
+    rewrite (pbSIR_dXY_A G nodelist idx tr rc (rl_idx R) V _ _ Hk Hl). rewrite Ek, El, (nd'_eq i Hi), (nd'_eq j Hj).
+    apply pbSIR_dXY_B; [apply acc_rx, H0|apply acc_rxy, H2|apply acc_rxx, H3|exact Hu|exact Hv].
+  - apply (veq_tab_blk2_at _ _ (pbSIR_dXX G nodelist idx tr V) (tX ++ tY ++ tXY) []);
+      [apply len'|rewrite app_nil_r, <- !app_assoc; reflexivity|unfold tX, tY, tXY; rewrite !app_length, !tab_length, tab2_length; lia|].
+    intros i j Hi Hj. at_pos i Hi Hu Hk Ek. at_pos j Hj Hv Hl El.
+    rewrite (pbSIR_dXX_A G' nl' idx' tr' Hidx'_all V' i j) by (rewrite len'; assumption).
+    rewrite (pbSIR_dXX_A G nodelist idx tr (rl_idx R) V _ _ Hk Hl). rewrite Ek, El, (nd'_eq i Hi), (nd'_eq j Hj).
+    apply pbSIR_dXX_B; [apply acc_rx, H0|apply acc_rxy, H2|apply acc_rxx, H3|exact Hu|exact Hv].
+Qed.
+
+Theorem pbSIS_equivariant V V' t :
+  rel1 0 V V' -> rel2 n V V' -> rel2 (n + n * n) V V' ->
+  veq (dSIS_pair_based G' nl' idx' tr' rc' V' t) (perm_pbSIS idx nl2 (dSIS_pair_based G nodelist idx tr rc V t)).
+Proof.
+  intros H0 H2 H3. unfold dSIS_pair_based, perm_pbSIS. rewrite !len2.
+  set (tY := tab n (pbSIS_dY G nodelist idx tr rc V)).
+  set (tXY := tab2 n n (pbSIS_dXY G nodelist idx tr rc V)). set (tXX := tab2 n n (pbSIS_dXX G nodelist idx tr rc V)).
+  apply veq_app; [|apply veq_app].
+  - apply (veq_tab_blk1_at _ _ (pbSIS_dY G nodelist idx tr rc V) [] (tXY ++ tXX)); [apply len'|reflexivity|reflexivity|].
+    intros i Hi. at_pos i Hi Hu Hk Ek.
+    rewrite (pbSIS_dY_A G' nl' idx' tr' rc' Hidx'_all V' i) by (rewrite len'; exact Hi).
+    rewrite (pbSIS_dY_A G nodelist idx tr rc (rl_idx R) V _ Hk). rewrite Ek, (nd'_eq i Hi).
+    apply pb_dY_B; [apply acc_sxy, H2|apply acc_sy, H0|exact Hu].
+  - apply (veq_tab_blk2_at _ _ (pbSIS_dXY G nodelist idx tr rc V) tY tXX); [apply len'|reflexivity|apply tab_length|].
+    intros i j Hi Hj. at_pos i Hi Hu Hk Ek. at_pos j Hj Hv Hl El.
+    rewrite (pbSIS_dXY_A G' nl' idx' tr' rc' Hidx'_all V' i j) by (rewrite len'; assumption).
+    rewrite (pbSIS_dXY_A G nodelist idx tr rc (rl_idx R) V _ _ Hk Hl). rewrite Ek, El, (nd'_eq i Hi), (nd'_eq j Hj).
+    apply pbSIS_dXY_B; [apply acc_sy, H0|apply acc_sxy, H2|apply acc_sxx, H3|exact Hu|exact Hv].
+  - apply (veq_tab_blk2_at _ _ (pbSIS_dXX G nodelist idx tr rc V) (tY ++ tXY) []);
+      [apply len'|rewrite app_nil_r, <- app_assoc; reflexivity|unfold tY, tXY; rewrite app_length, tab_length, tab2_length; lia|].
+    intros i j Hi Hj. at_pos i Hi Hu Hk Ek. at_pos j Hj Hv Hl El.
+    rewrite (pbSIS_dXX_A G' nl' idx' tr' rc' Hidx'_all V' i j) by (rewrite len'; assumption).
+    rewrite (pbSIS_dXX_A G nodelist idx tr rc (rl_idx R) V _ _ Hk Hl). rewrite Ek, El, (nd'_eq i Hi), (nd'_eq j Hj).
+    apply pbSIS_dXX_B; [apply acc_sy, H0|apply acc_sxy, H2|apply acc_sxx, H3|exact Hu|exact Hv].
 Qed.
 End Relabel.
